@@ -350,6 +350,16 @@ def d1_comparators(ctx):
                 # is differentiated has to reach one sample past the range it fills (data[:, first:last + 1]); padding every block with a 0 drops that edge
                 overlap = False
                 hi_txt = src(tbk["hi"]).replace(" ", "")
+                # the end of a block as the loop defines it: min(first + B, ns) / first + B
+                rng = tbk["loop"].iter
+                ends = []
+                if isinstance(rng, ast.Call) and len(rng.args) == 3:
+                    B_, N_ = src(rng.args[2]).replace(" ", ""), src(rng.args[1]).replace(" ", "")
+                    ends = [f"min({tbk['lo']}+{B_},{N_})", f"{tbk['lo']}+{B_}", f"min({N_},{tbk['lo']}+{B_})"]
+                for c_ in tbk["cols"]:
+                    txt_ = src(c_.upper).replace(" ", "") if c_.upper is not None else ""
+                    if any((e_ + "+1") in txt_ or ("1+" + e_) in txt_ for e_ in ends):
+                        overlap = True
                 for c_ in tbk["cols"]:
                     up = c_.upper
                     txt = src(up).replace(" ", "") if up is not None else ""
